@@ -20,10 +20,14 @@ S = Suite(
     what="MetConfig.n_timesteps / get_step / validate-at-build via parse_config_dict and "
          "BLDFMConfig(...) against the statement, exhaustively over the small pattern space",
     bound="16 list/scalar patterns x lengths 1..4 x timestamps none/str/int/wrong(+1,+2,-1>=1) x "
-          "forcing ustar/z0/both/neither x build path dict/dataclass; list lengths > 4 and "
-          "non-list sequences are not examined",
+          "forcing ustar/z0/both/neither x build path dict/dataclass; histories on ONE MetConfig "
+          "instance: every ordered pair of valid forcings (quick: 13 first stages x all 61), "
+          "fields replaced in place and the configuration rebuilt, plus 3..5-stage walks and "
+          "walks through a rejected forcing; list lengths > 4 and non-list sequences are not "
+          "examined",
     rule="n_timesteps == common list length (1 if none); get_step(i) == expected dict for all i; "
-         "ValueError at build iff the statement rejects the forcing",
+         "ValueError at build iff the statement rejects the forcing; in a history the same for "
+         "the CURRENT fields after every replacement",
 )
 
 FIELDS = ("ustar", "mol", "wind_speed", "wind_dir")
@@ -77,6 +81,43 @@ def _pattern(lengths):
     return "+".join(names) if names else "all-scalar"
 
 
+def _check_forcing(mobj, met, lengths, forcing, ts_len, n, pat, prefix=""):
+    """n_timesteps and every step of the MetConfig `mobj` against the statement for the forcing
+    described by (lengths, forcing, ts_len); None when everything is as stated."""
+    got_n = mobj.n_timesteps
+    if got_n != n:
+        if prefix:      # in a history the witness class is the staleness, not the pattern
+            key = prefix + "n_timesteps-not-current"
+        else:
+            key = ("n_timesteps-ignores-%s" % pat) if got_n == 1 else ("n_timesteps-wrong-%s" % pat)
+        return Verdict(False, "n_timesteps=%r, statement says %d (lists: %s, length %d); met=%r"
+                       % (got_n, n, pat, n, met), key=key)
+    for i in range(n):
+        try:
+            step = mobj.get_step(i)
+        except Exception as e:
+            return Verdict(False, "get_step(%d) of %d raised %s: %s; met=%r"
+                           % (i, n, type(e).__name__, e, met), key=prefix + "get_step-raises")
+        exp = {}
+        for f in FIELDS:
+            if f == "ustar" and forcing == "z0":
+                exp[f] = None
+            else:
+                exp[f] = _val(f, i) if lengths.get(f, 0) else _val(f, 0)
+        exp["timestamp"] = met["timestamps"][i] if ts_len is not None else i
+        if forcing in ("z0", "both"):
+            exp["z0"] = Z0
+        for k, v in exp.items():
+            if k not in step or step[k] != v or type(step[k]) is not type(v):
+                return Verdict(False, "get_step(%d)[%r]=%r, statement says %r; met=%r"
+                               % (i, k, step.get(k, "<missing>"), v, met),
+                               key=prefix + "get_step-%s-wrong" % k)
+        if ("z0" in step and step["z0"] is not None) != (forcing in ("z0", "both")):
+            return Verdict(False, "get_step(%d): z0 present=%r but configured=%r"
+                           % (i, "z0" in step, forcing), key=prefix + "get_step-z0-presence")
+    return None
+
+
 @S.kind("valid")
 def valid(lengths, forcing, ts, via):
     """A forcing the statement admits: must build, n and every step as stated."""
@@ -91,31 +132,76 @@ def valid(lengths, forcing, ts, via):
     except ValueError as e:
         return Verdict(False, "valid forcing rejected at build: %s; met=%r" % (e, met),
                        key="valid-forcing-rejected[%s]" % pat)
-    got_n = cfg.met.n_timesteps
-    if got_n != n:
-        key = ("n_timesteps-ignores-%s" % pat) if got_n == 1 else ("n_timesteps-wrong-%s" % pat)
-        return Verdict(False, "n_timesteps=%r, statement says %d (lists: %s, length %d); met=%r"
-                       % (got_n, n, pat, n, met), key=key)
-    for i in range(n):
-        step = cfg.met.get_step(i)
-        exp = {}
-        for f in FIELDS:
-            if f == "ustar" and forcing == "z0":
-                exp[f] = None
-            else:
-                exp[f] = _val(f, i) if lengths.get(f, 0) else _val(f, 0)
-        exp["timestamp"] = met["timestamps"][i] if ts_len is not None else i
-        if forcing in ("z0", "both"):
-            exp["z0"] = Z0
-        for k, v in exp.items():
-            if k not in step or step[k] != v or type(step[k]) is not type(v):
-                return Verdict(False, "get_step(%d)[%r]=%r, statement says %r; met=%r"
-                               % (i, k, step.get(k, "<missing>"), v, met),
-                               key="get_step-%s-wrong" % k)
-        if ("z0" in step and step["z0"] is not None) != (forcing in ("z0", "both")):
-            return Verdict(False, "get_step(%d): z0 present=%r but configured=%r"
-                           % (i, "z0" in step, forcing), key="get_step-z0-presence")
+    bad = _check_forcing(cfg.met, met, lengths, forcing, ts_len, n, pat)
+    if bad:
+        return bad
     return Verdict(True, "n=%d pattern=%s" % (n, pat), nontrivial=True)
+
+
+def _stage_n(lengths):
+    lens = [L for L in lengths.values() if L]
+    if lens and any(L != lens[0] for L in lens):
+        return None                       # the statement rejects this forcing
+    return lens[0] if lens else 1
+
+
+@S.kind("history")
+def history(stages, via):
+    """One MetConfig instance lives through several forcings: built with stages[0], then for every
+    further stage its fields are REPLACED on the same instance (scalar -> list, list -> scalar,
+    other lengths) and the configuration is built again around it.  After every stage
+    n_timesteps and every get_step(i) must be those of the CURRENT fields (the statement is
+    about the forcing's fields, not about when they were set), and a stage whose lists disagree
+    in length must be rejected by the rebuild.  n_timesteps and the steps are read after every
+    stage, so anything remembered from an earlier stage shows."""
+    from bldfm.config_parser import BLDFMConfig
+    cfg = None
+    trail = []
+    for si, st in enumerate(stages):
+        lengths, forcing, ts = st["lengths"], st["forcing"], st["ts"]
+        n = _stage_n(lengths)
+        ts_len = None if ts == "none" else (n if n is not None else max(lengths.values()))
+        met = _met_dict(lengths, forcing, ts_len, ts)
+        pat = _pattern(lengths)
+        trail.append("%s/%s" % (pat, "x" if n is None else n))
+        if si == 0:
+            assert n is not None
+            try:
+                cfg = _build(met, via)
+            except ValueError as e:
+                return Verdict(False, "valid forcing rejected at build: %s; met=%r" % (e, met),
+                               key="valid-forcing-rejected[%s]" % pat)
+        else:
+            m = cfg.met
+            for f in FIELDS:
+                setattr(m, f, met.get(f))          # ustar absent (z0 forcing) -> None
+            m.z0 = met.get("z0")
+            m.timestamps = met.get("timestamps")
+            try:
+                cfg = BLDFMConfig(domain=cfg.domain, towers=cfg.towers, met=m)
+                raised = None
+            except ValueError as e:
+                raised = e
+            if n is None:
+                if raised is None:
+                    return Verdict(False, "history %s: lists of different lengths accepted when the "
+                                   "configuration is rebuilt; n_timesteps=%r; met=%r"
+                                   % (" -> ".join(trail), m.n_timesteps, met),
+                                   key="history-list-length-mismatch-accepted")
+                continue                           # stays invalid until the next stage replaces it
+            if raised is not None:
+                return Verdict(False, "history %s: valid forcing rejected at rebuild: %s; met=%r"
+                               % (" -> ".join(trail), raised, met),
+                               key="history-valid-forcing-rejected")
+            if cfg.met is not m:
+                return Verdict(False, "BLDFMConfig copied the MetConfig; the history is not "
+                               "observed", nontrivial=False, key="history-harness")
+        bad = _check_forcing(cfg.met, met, lengths, forcing, ts_len, n, pat,
+                             prefix="" if si == 0 else "history-")
+        if bad:
+            bad.detail = "history %s (stage %d): %s" % (" -> ".join(trail), si, bad.detail)
+            return bad
+    return Verdict(True, "history %s" % " -> ".join(trail), nontrivial=len(stages) > 1)
 
 
 @S.kind("reject")
@@ -138,10 +224,50 @@ def reject(lengths, forcing, ts_len, ts, via, why):
                    % (why, cfg.met.n_timesteps, met), key=key)
 
 
+def _stages(forcings=("ustar", "both", "z0")):
+    """All valid single stages: 16 patterns x lengths 1..4, forcing and timestamps cycled."""
+    out = []
+    c = 0
+    for mask in range(16):
+        listed = [f for k, f in enumerate(FIELDS) if mask >> k & 1]
+        for L in ((1, 2, 3, 4) if listed else (0,)):
+            c += 1
+            forcing = forcings[c % len(forcings)]
+            if forcing == "z0" and "ustar" in listed:
+                forcing = "both"
+            out.append(dict(lengths={f: L for f in listed}, forcing=forcing,
+                            ts=("none", "str", "int")[c % 3]))
+    return out
+
+
+def _histories(tier, rng):
+    allst = _stages()
+    first = allst if tier == "thorough" else [
+        st for st in allst if _pattern(st["lengths"]) in (
+            "all-scalar", "wind_dir", "mol", "ustar", "ustar+wind_speed", "mol+wind_dir",
+            "ustar+mol+wind_speed+wind_dir") and (not st["lengths"] or
+                                                  max(st["lengths"].values()) in (1, 3))]
+    for via in ("dict", "dataclass"):
+        for a in first:
+            for b in allst:
+                yield "history", dict(stages=[a, b], via=via)
+    # three stages with a rejected forcing in the middle, and longer random walks
+    bad_mid = [dict(lengths={"ustar": 2, "wind_dir": 3}, forcing="ustar", ts="none"),
+               dict(lengths={"mol": 4, "wind_speed": 1, "wind_dir": 4}, forcing="both", ts="str")]
+    for k in range(40 if tier == "quick" else 600):
+        via = ("dict", "dataclass")[k % 2]
+        if k % 2:
+            yield "history", dict(stages=[rng.choice(allst), bad_mid[k // 2 % 2], rng.choice(allst)],
+                                  via=via)
+        else:
+            yield "history", dict(stages=[rng.choice(allst) for _ in range(rng.randint(3, 5))],
+                                  via=via)
+
+
 def generate(tier, rng):
     import json
     seen = set()
-    for kind, params in _generate():
+    for kind, params in itertools.chain(_generate(), _histories(tier, rng)):
         sig = kind + json.dumps(params, sort_keys=True)
         if sig not in seen:        # the enumeration below names some forcings twice
             seen.add(sig)
